@@ -13,6 +13,7 @@ pub mod c13;
 pub mod c14;
 pub mod c16;
 pub mod c17;
+pub mod c18;
 
 pub struct Prop {
     pub check: fn(&Ctx),
@@ -64,6 +65,10 @@ pub fn lookup(id: &str) -> Option<Prop> {
         "C17" => Prop {
             check: c17::check,
             replay: c17::replay,
+        },
+        "C18" => Prop {
+            check: c18::check,
+            replay: c18::replay,
         },
         _ => return None,
     })
